@@ -491,6 +491,72 @@ def run_c09x(tier, rep):
     rep["notes"].append("compile-or-behave catalogue: %d declarations, fixpoint rounds %d/%d" % (len(doc["cases"]), r1, r2))
 
 
+def run_c03x(tier, rep):
+    """C03, compile-or-behave part (see ntgen::cc::c03x_cases): `derive(Default)` without a `default =` attribute is
+    either refused or yields exactly what the constructor makes of the inner type's default."""
+    with vlib.Lock():
+        out, doc = gen("C03X", tier, 1)
+        res, r1 = fixpoint(out, doc, "check")
+        res_b, r2 = fixpoint(out, doc, "build")
+        for cid, r in res_b.items():
+            if r["status"] == "rejected" and res[cid]["status"] == "accepted":
+                res[cid] = r
+        obs = run_probes(out, doc, res)
+    for c in doc["cases"]:
+        r = res[c["id"]]
+        rep["evaluations"] += 1
+        rep["states"] += 1
+        hist(rep, "compile-or-behave:%s:%s" % (c["kind"], r["status"]))
+        if r["status"] == "rejected":
+            if c["kind"] == "control":
+                rep["machinery_errors"].append("C03X control does not compile: %s: %s" % (c["text"][:120], r["errors"][0][1][:160]))
+            continue
+        o = obs.get(c["id"], {})
+        for k, exp in enumerate(c["probes"]):
+            rep["evaluations"] += 1
+            rep["transitions"] += 1
+            rep["traces_validated_against_impl"] += 1
+            inp, want = exp.split(" => ", 1)
+            got = o.get(k)
+            if got != want:
+                rep["violation_count"] += 1
+                rep["violations"].append({"property": "C03", "subject": -1, "decl": c["text"], "shape": "compile-or-behave:%s" % c["class"], "entry": "Default::default", "input": inp, "expected": "declaration refused at compile time, or default() == constructor(inner default) (panic iff Err)", "observed": "declaration accepted; %s" % got, "class": "default-differs"})
+    rep["notes"].append("compile-or-behave catalogue (Default without `default =`): %d declarations, fixpoint rounds %d/%d" % (len(doc["cases"]), r1, r2))
+
+
+def run_c14x(tier, rep):
+    """C14, compile-or-behave part (see ntgen::cc::c14x_cases): an accepted integer declaration whose range the
+    macro cannot derive from the bounds must still have a generator that reaches every obtainable value."""
+    with vlib.Lock():
+        out, doc = gen("C14X", tier, 2)
+        res, r1 = fixpoint(out, doc, "check")
+        res_b, r2 = fixpoint(out, doc, "build")
+        for cid, r in res_b.items():
+            if r["status"] == "rejected" and res[cid]["status"] == "accepted":
+                res[cid] = r
+        obs = run_probes(out, doc, res)
+    for c in doc["cases"]:
+        r = res[c["id"]]
+        rep["evaluations"] += 1
+        rep["states"] += 1
+        hist(rep, "compile-or-behave:%s:%s" % (c["kind"], r["status"]))
+        if r["status"] == "rejected":
+            if c["kind"] == "control":
+                rep["machinery_errors"].append("C14X control does not compile: %s: %s" % (c["text"][:120], r["errors"][0][1][:160]))
+            continue
+        o = obs.get(c["id"], {})
+        for k, exp in enumerate(c["probes"]):
+            rep["evaluations"] += 65793
+            rep["transitions"] += 65793
+            inp, want = exp.split(" => ", 1)
+            got = o.get(k)
+            rep["traces_validated_against_impl"] += 1
+            if got != want:
+                rep["violation_count"] += 1
+                rep["violations"].append({"property": "C14", "subject": -1, "decl": c["text"], "shape": "compile-or-behave:%s" % c["class"], "entry": "Arbitrary (exhaustive byte inputs)", "input": inp, "expected": "declaration refused at compile time, or produced set covers every value the constructor can return", "observed": "declaration accepted; %s" % got, "class": "incomplete-range"})
+    rep["notes"].append("compile-or-behave catalogue: %d declarations (all 65 793 byte strings of length <= 2 each), fixpoint rounds %d/%d" % (len(doc["cases"]), r1, r2))
+
+
 CC_ASSUMPTIONS = [
     "rustc 1.95 (x86_64 host) accept/reject verdicts; errors attributed to the enclosing case module by span and confirmed by the remove-and-rebuild fixpoint",
     "REF's admissibility predicate (ntcore::admit) encodes the property's reject classes; grey-zone declarations are `either`",
